@@ -8,7 +8,17 @@ on each (`(ok <val>)` or the atom `fail` for an error / panic).
 -/
 import Driver.Util
 import Driver.HCovers
+import CtyModel.Stdlib.d12bStrlen
 open CtyModel
+
+/-- `c12.strlen <val> (<cluster>*)` → `StrlenFunc.Call` of the model, the segmentation of the one string it
+looks at (the known string, or the prefix of the unknown's range) given by the harness -/
+def c12OutStr : Fn.Out Value → String
+  | .ok a => "ok " ++ toString a.toSexp
+  | .err (.panicError _) => "panicerr"
+  | .err _ => "err"
+  | .panic _ => "panic"
+  | .unmodelled => "unmodelled"
 
 def handleC12 : Handler := fun op args =>
   match op, args with
@@ -20,4 +30,8 @@ def handleC12 : Handler := fun op args =>
       | .atom "fail" => some (.panic "impl")
       | s => outcomeOfSexp s
     pure (verdictStr (judgeSound os ws (← dec ro) (← dec rw)))
+  | "c12.strlen", [a, .list cs] => do
+    let a ← Value.ofSexp a
+    let cs ← cs.mapM Sexp.decStr
+    pure (c12OutStr (Stdlib.strlenCall (fun _ => cs) [a]))
   | _, _ => none
